@@ -19,9 +19,9 @@ from dsim import world as W
 from dsim.canon import digest, jdump
 
 PROPERTY = "C18"
-QUICK_RUNS = 5000
+QUICK_RUNS = 8000
 THOROUGH_RUNS = 150000
-QUICK_BUDGET = 75
+QUICK_BUDGET = 90
 RULE = ("scenario = 2-3 collision worlds (same base URI, same $ref strings, same remote URLs, same regexes, same "
         "format/type/keyword names; different definitions/documents/checkers) + per-actor resolver configuration and "
         "fault plan + per-actor program of 1-3 operations + a schedule (coop: list of actor ids / gc; preempt: 0-8 PCT "
